@@ -26,6 +26,13 @@ def make_copy(fil, old, new):
     shutil.copytree(os.path.join(REPO, 'src'), os.path.join(r, 'src'))
     for f in ('Cargo.toml', 'Cargo.lock'):
         shutil.copy(os.path.join(REPO, f), r)
+    if fil == 'DIFF':
+        # variant kept as a unified diff under selftest/keep (edits spanning several files)
+        p = subprocess.run(['patch', '-p1', '-s', '-i', os.path.join(VERIF, 'selftest', 'keep', old)], cwd=r, capture_output=True, text=True)
+        if p.returncode != 0:
+            shutil.rmtree(d)
+            return None, 'diff does not apply: ' + (p.stdout + p.stderr).strip()[-200:]
+        return d, None
     edits = old if fil is None else [(fil, old, new, False)]
     for efile, eold, enew, eall in edits:
         p = os.path.join(r, efile)
